@@ -107,6 +107,8 @@ VARIANTS = [
 ]
 # values at the top of the float64 range: finite, but the sum of two of them is not (only for slices over {0, 1})
 HUGE = {'entry': 'solve_t', 'scale': 2.0 ** 1023, 'span': 'range', 'tolmode': 'eq', 'flavour': 0}
+# values and tolerance so small that their squares underflow to zero
+TINY = {'entry': 'solve_t', 'scale': 2.0 ** -600, 'span': 'str', 'tolmode': 'eq', 'flavour': 1}
 
 
 def replay(ctx: core.Ctx, records: List[Dict[str, Any]], *, all_variants: bool, what: str, module: str = 'harness.replay_solver',
